@@ -203,6 +203,9 @@ func runC18(c *wk.Ctx) {
 		rs := results[idx%int64(len(results))]
 		v := pool[r.Intn(len(pool))]
 		w := pool[r.Intn(len(pool))]
+		if rs.name == "value+error" && (idx/int64(len(results)))%2 == 0 {
+			v = pool[indexOf(pool, "any")] // (any, error) is the one result shape the dynamic constructor takes
+		}
 		in := make([]reflect.Type, len(pl))
 		for i, t := range pl {
 			in[i] = pool[t].typ
@@ -230,6 +233,9 @@ func runC18(c *wk.Ctx) {
 					}
 				case t == v.typ && i == 0:
 					res[i] = reflect.ValueOf(v.sample(7)).Convert(t)
+					if c18RetZero {
+						res[i] = reflect.Zero(t) // the zero value of the result type: a nil list, a nil map, 0, ""
+					}
 				case t.Kind() == reflect.Interface:
 					res[i] = reflect.Zero(t)
 				default:
@@ -384,6 +390,9 @@ func plNames(pool []c18Type, pl []int) string {
 	return strings.Join(s, ",")
 }
 
+// c18RetZero makes the synthesised handlers return the zero value of their result type.
+var c18RetZero bool
+
 // c18Calls exercises an accepted function with argument lists of every length.
 func c18Calls(c *wk.Ctx, fn schema.CallableFunction, pool []c18Type, pl []int, hasValue bool, v c18Type, hasErr bool, gotArgs *[]any, retErr *int, wit map[string]any, kind string) {
 	for nargs := 0; nargs <= 4; nargs++ {
@@ -478,6 +487,25 @@ func c18Calls(c *wk.Ctx, fn schema.CallableFunction, pool []c18Type, pl []int, h
 				}
 			} else if res != nil {
 				c.Violation("C18:call:wrong-result:"+kind, fmt.Sprintf("void function returned %#v", res), w)
+			}
+			if hasValue && kind == "static" && errMode == 0 {
+				// the handler returns the zero value of its result type: the caller gets exactly that, type included
+				c18RetZero = true
+				var zres any
+				var zerr error
+				zp, zsite, zmsg, _ := wk.Guard(func() { zres, zerr = fn.Call(args) })
+				c18RetZero = false
+				c.Count("calls")
+				c.Count("calls_returning_the_zero_value")
+				zwant := reflect.Zero(v.typ).Interface()
+				switch {
+				case zp:
+					c.Violation("C18:call:panic:"+kind+":"+zsite, "Call panicked when the handler returned its zero value: "+zmsg, w)
+				case zerr != nil:
+					c.Violation("C18:call:spurious-error:"+kind, fmt.Sprintf("Call failed when the handler returned its zero value: %v", zerr), w)
+				case reflect.TypeOf(zres) != reflect.TypeOf(zwant) || !reflect.DeepEqual(zres, zwant):
+					c.Violation("C18:call:wrong-result:zero-value:"+kind, fmt.Sprintf("the handler returned %#v (%T), Call returned %#v (%T)", zwant, zwant, zres, zres), w)
+				}
 			}
 		}
 	}
